@@ -1,9 +1,31 @@
 //@include prelude/strstruct_header.rs
-// Unit scan_venv2 — property C14, second sentence (plugin discovery), + C11 (no panic), C12 (termination):
-//   src/fixtures/scanner.rs  DATABASE-writing functions: scan_single_plugin_file (F1), scan_plugin_directory (F2),
+// Unit scan_venv2 — property C14, second sentence (plugin discovery), DATABASE level, + C11 (no panic), C12 (termination):
+//   src/fixtures/scanner.rs  scan_single_plugin_file (F1), scan_plugin_directory (F2),
 //   resolve_entry_point_in_editable_installs (F3), load_plugin_from_entry_point (F4), scan_pytest_internal_fixtures (F5),
 //   build_pth_index (F6), discover_editable_installs (F7), scan_pytest_plugins (F8), scan_venv_site_packages (F9),
-//   scan_venv_fixtures (F10).  The text functions they call (unit scan_venv) enter as //@stub contracts.
+//   scan_venv_fixtures (F10).  The four text functions they call (unit scan_venv) enter as //@stub contracts.
+//   L1: final(self).vst() == op_*(old(self).vst(), args) — the operational specs of prelude/scanvenv_spec2.rs over the
+//       abstract state VSt {idx (what analyses write), plugins, sp, er, ws}; the exact-field frame (site_packages_paths,
+//       editable_install_roots, workspace_root untouched where the function does not write them) is stated besides.
+//       F7..F10: `exists idx: PthIndex. post(old, final, args, idx)` — idx is the .pth index build_pth_index returned
+//       (hmv(idx) == op_pth_index(sp)); its hash iteration order decides which matching .pth file is read first.
+//   L2: lemma_C14_* at the end of this file.
+//   C11: `path.parent().expect(..)` (proved: a path with a file name has a parent, D9), `scanned_count += 1` (<= number of
+//       entries), `plugin_count += scanned` (REQUIRES ep_fits: fewer than 2^64 pytest11 entries in one site-packages),
+//       `lock().unwrap()` (D8: never poisoned).  C12: every `loop` has a `decreases`; the plugin-directory walk is limited
+//       to depth 3 (D4 + the literal in the replaced loop header).
+//   transformations beyond T1-T12 (all by @replace, T9):
+//       T12' scan_plugin_directory / scan_pytest_plugins: the `for` header itself needs a closure contract / a stand-in
+//            call, which @forloop cannot carry (it copies the iterator expression verbatim): the header is replaced by
+//            the same `{ let mut it = (EXPR).into_iter(); loop … { let Some(x) = it.next() else { break; };` that T12
+//            produces, EXPR spelled out in the directive; a change of the header in the source is UNDECIDED (anchor lost).
+//       S1   `std::fs::read_dir(p)` -> vp_read_dir(p), `serde_json::Value` / `serde_json::from_str` -> VpJson /
+//            vp_json_from_str, `std::env::var` -> vp_env_var: prelude stand-ins (prelude/scanvenv_db.rs D1, D5, D6).
+//   assumed: prelude/scanvenv_db.rs (D1..D9), the callee stubs analyze_file / analyze_file_fresh below (frame + abstract
+//       effect an_eff), the @wrapexpr helpers (OsStr / Cow expressions: vp_ext_str*, vp_file_name_str*, vp_lossy_name_*,
+//       vp_cow_str_*; vp_new_index / vp_index_insert = HashMap::new / insert on the view hmv; vp_json_is_editable = the
+//       `.get("dir_info").and_then(..get("editable")).and_then(..as_bool()).unwrap_or(false)` chain == json_editable),
+//       and everything unit scan_venv assumes.
 use std::sync::atomic::Ordering;
 verus! {
 global size_of usize == 8;  // A6: 64-bit target
@@ -109,6 +131,7 @@ use crate::lock_ro::VpLock;
 broadcast use {axiom_path_as_path, axiom_pathbuf_ref_as_path, lemma_fits, axiom_ts_n, axiom_te_n, axiom_pat_str, axiom_pat_char,
     lemma_sv_step, axiom_str_path, axiom_plain_pv, axiom_file_name_parent, axiom_entry_name};
 impl FixtureDatabase {
+#[verifier::spinoff_prover]
 /*@ extract src/fixtures/scanner.rs resolve_entry_point_in_editable_installs
 @tags C14 C11 C12
 @ret r
@@ -128,6 +151,7 @@ use crate::*;
 broadcast use {axiom_path_as_path, axiom_pathbuf_ref_as_path, lemma_fits, axiom_ts_n, axiom_te_n, axiom_pat_str, axiom_pat_char,
     lemma_sv_step, axiom_str_path, axiom_plain_pv, axiom_file_name_parent, axiom_entry_name};
 impl FixtureDatabase {
+#[verifier::spinoff_prover]
 /*@ extract src/fixtures/scanner.rs load_plugin_from_entry_point
 @tags C14 C11 C12
 @recv mut
@@ -157,6 +181,7 @@ impl FixtureDatabase {
     proof { assert(eps_v(es)[it.index@ as int] == ep_v(entry)); }
 @*/
 
+#[verifier::spinoff_prover]
 /*@ extract src/fixtures/scanner.rs scan_pytest_internal_fixtures
 @tags C14 C11 C12
 @recv mut
@@ -167,6 +192,7 @@ impl FixtureDatabase {
         final(self).workspace_root == old(self).workspace_root,
 @*/
 
+#[verifier::spinoff_prover]
 /*@ extract src/fixtures/scanner.rs build_pth_index
 @tags C14 C11 C12
 @ret r
@@ -185,6 +211,7 @@ impl FixtureDatabase {
     invariant it.seq() == es, hmv(&index) == pth_index_fold(es, it.index@ as int),
 @*/
 
+#[verifier::spinoff_prover]
 /*@ extract src/fixtures/scanner.rs discover_editable_installs
 @tags C14 C11 C12
 @recv mut
@@ -230,6 +257,7 @@ impl FixtureDatabase {
     proof { assert(disc_post(st0, self.vst(), sp, pth_index)); }
 @*/
 
+#[verifier::spinoff_prover]
 /*@ extract src/fixtures/scanner.rs scan_pytest_plugins
 @tags C14 C11 C12
 @recv mut
@@ -258,6 +286,7 @@ impl FixtureDatabase {
     proof { assert(plugins_post(st0, self.vst(), sp, idx)); }
 @*/
 
+#[verifier::spinoff_prover]
 /*@ extract src/fixtures/scanner.rs scan_venv_site_packages
 @tags C14 C11 C12
 @recv mut
@@ -305,6 +334,7 @@ impl FixtureDatabase {
     proof { assert(venv_sp(venv) is None); assert(site_post(st0, self.vst(), venv, arbitrary::<PthIndex>())); }
 @*/
 
+#[verifier::spinoff_prover]
 /*@ extract src/fixtures/scanner.rs scan_venv_fixtures
 @tags C14 C11 C12
 @recv mut
@@ -336,6 +366,7 @@ impl FixtureDatabase {
     proof { assert(venv_of(root) is None); assert(venv_post(st0, self.vst(), root, arbitrary::<PthIndex>())); }
 @*/
 
+#[verifier::spinoff_prover]
 /*@ extract src/fixtures/scanner.rs scan_single_plugin_file
 @tags C14 C11 C12
 @recv mut
@@ -348,6 +379,7 @@ impl FixtureDatabase {
         final(self).workspace_root == old(self).workspace_root,
 @*/
 
+#[verifier::spinoff_prover]
 /*@ extract src/fixtures/scanner.rs scan_plugin_directory
 @tags C14 C11 C12
 @recv mut
@@ -370,6 +402,7 @@ impl FixtureDatabase {
 @*/
 
 // ---- exec vacuity canaries: the same real bodies with the REAL contracts and injected `assert(false)`; each must FAIL
+#[verifier::spinoff_prover]
 /*@ extract src/fixtures/scanner.rs load_plugin_from_entry_point
 @tags C14
 @as canary_exec_load_plugin
@@ -404,6 +437,7 @@ impl FixtureDatabase {
     assert(false);
 @*/
 
+#[verifier::spinoff_prover]
 /*@ extract src/fixtures/scanner.rs discover_editable_installs
 @tags C14
 @as canary_exec_discover
@@ -450,6 +484,7 @@ impl FixtureDatabase {
     proof { assert(disc_post(st0, self.vst(), sp, pth_index)); }
 @*/
 
+#[verifier::spinoff_prover]
 /*@ extract src/fixtures/scanner.rs scan_venv_site_packages
 @tags C14
 @as canary_exec_site_packages
